@@ -1413,7 +1413,7 @@ invariant
 // only the initial partition can hold an empty group (no non-accepting state): it is gone after the first round
 decreases (if all_nonempty(pv(partition_old@)) { 0int } else { 1int }), n + 1 - partition_old@.len(), (if changed { 1int } else { 0int })
 """, label='minimize.refine'),
-        Ins('after', 'while changed {', """
+        Ins('after', 'while $_ {', """
 let ghost po = pv(partition_old@);
 proof {
     assert forall|s: StateID, cc: CharClassID, t: StateID| #[trigger] tm_edge(tm, s, cc, t) implies t.0 < n by {
